@@ -126,6 +126,13 @@ func (x *Exec) doIf(st *State, fr *Frame, b *ssa.BasicBlock, cond *Term, label s
 	li := loopsOf(fr.fn)
 	if _, isHeader := li.headers[b.Index]; !isHeader && !x.noMerge {
 		j = ipdoms(fr.fn)[b.Index]
+		if j >= 0 {
+			if _, joinIsHeader := li.headers[j]; joinIsHeader {
+				// arrivals at a loop header must go through the loop logic (invariant checks,
+				// back-edge cut): no merging across it
+				j = -1
+			}
+		}
 	}
 	if j < 0 {
 		st2 := st.clone()
